@@ -10,6 +10,7 @@ open TraitsVerif TraitsVerif.Py.Value
 def TraitType.subs : TraitType → Option (List TraitType)
   | .tuple items => some items
   | .baseTuple items => some items
+  | .validatedTuple items _ => some items
   | .either alts _ => some alts
   | .union alts => some alts
   | .compoundH hs => some hs
@@ -27,6 +28,7 @@ theorem TraitType.induct' {P : TraitType → Prop} {Q : List TraitType → Prop}
     (nil : Q []) (cons : ∀ t ts, P t → Q ts → Q (t :: ts)) : ∀ t, P t
   | .tuple items => node _ items rfl (TraitType.inductL' atomic noFast node nil cons items)
   | .baseTuple items => node _ items rfl (TraitType.inductL' atomic noFast node nil cons items)
+  | .validatedTuple items _ => node _ items rfl (TraitType.inductL' atomic noFast node nil cons items)
   | .either alts _ => node _ alts rfl (TraitType.inductL' atomic noFast node nil cons alts)
   | .union alts => node _ alts rfl (TraitType.inductL' atomic noFast node nil cons alts)
   | .compoundH hs => node _ hs rfl (TraitType.inductL' atomic noFast node nil cons hs)
